@@ -225,6 +225,53 @@ func RunRaces(e *Env) {
 		cl.Close()
 		R.Eval(fmt.Sprintf("redial-vs-close-%d", i), true)
 	}
+	// directed: And / WithNewNodes on a shared configuration that has spare capacity (built from a list with duplicates), from several goroutines;
+	// and Close concurrent with the creation of configurations that add nodes
+	for i := 0; i < e.Pick(8, 50); i++ {
+		cl, err := h.NewCluster(h.Options{N: 4, Block: false, DialTimeout: 100 * time.Millisecond, Pure: true, QSpec: h.PureQSpec{}})
+		if err != nil {
+			continue
+		}
+		dup, err1 := cl.Mgr.NewConfiguration(gorums.WithNodeList([]string{cl.Addrs[0], cl.Addrs[0], cl.Addrs[1], cl.Addrs[1]}), h.PureQSpec{})
+		others := make([]*puppet.Configuration, 0, 3)
+		for j := 1; j < 4; j++ {
+			if c, err := cl.SubConfig([]int{j}, h.PureQSpec{}); err == nil {
+				others = append(others, c)
+			}
+		}
+		var wg sync.WaitGroup
+		if err1 == nil {
+			for w := 0; w < 6; w++ {
+				wg.Add(1)
+				go func(w int) {
+					defer wg.Done()
+					for k := 0; k < 10; k++ {
+						o := others[(w+k)%len(others)]
+						if c, err := cl.Mgr.NewConfiguration(dup.And(o), h.PureQSpec{}); err == nil {
+							_ = c.NodeIDs()
+						}
+						_ = dup.NodeIDs()
+					}
+				}(w)
+			}
+		}
+		// new nodes being added while the manager is closed
+		wg.Add(2)
+		go func() {
+			defer wg.Done()
+			for k := 0; k < 6; k++ {
+				cl.Mgr.NewConfiguration(gorums.WithNodeList([]string{fmt.Sprintf("127.0.0.1:%d", 6100+k)}), h.PureQSpec{})
+			}
+		}()
+		go func() {
+			defer wg.Done()
+			time.Sleep(time.Duration(i%4) * 200 * time.Microsecond)
+			cl.Mgr.Close()
+		}()
+		wg.Wait()
+		cl.Close()
+		R.Eval(fmt.Sprintf("shared-config-algebra-and-close-vs-addnode-%d", i), true)
+	}
 	// directed: managers created and used with a plain gorums API (RawManager) concurrently
 	for i := 0; i < e.Pick(5, 30); i++ {
 		mgr := gorums.NewRawManager(gorums.WithNoConnect(), gorums.WithGrpcDialOptions(grpc.WithTransportCredentials(insecure.NewCredentials())))
